@@ -2,11 +2,13 @@
   crdriver — one JSON array per input line: [property, op, args]; one JSON value per output line.
   {"fatal": msg} means the driver could not interpret the line (never a model verdict).
 -/
+import Driver.C10
 import Driver.C17
 open Lean CR.Drv
 
 def dispatch (prop op : String) (a : Json) : P Json :=
   match prop with
+  | "C10" => C10.handle op a
   | "C17" => C17.handle op a
   | _ => throw s!"unknown property {prop}"
 
